@@ -42,6 +42,8 @@ Rules applied to extracted text (recorded in evidence as coverage.extraction.dro
  16 (opt-in, `opaque_async_blocks`) every `async [move] { .. }` BLOCK expression in the body is replaced by a call of the
     prelude's `opaque_async_block()` (Verus has no generator types): the future built there is a value the function only
     stores; what it does when polled is NOT verified and is listed as dropped text
+ 17 (opt-in, `for_each_to_for it=NAME`) the statement `E.into_iter().for_each(|P| B);` becomes `for P in NAME: E B`
+    (`Iterator::for_each` IS that loop; Verus has no closures that capture `&mut`)
  13 (opt-in, `emit_as X`) the function is emitted under the identifier X (same text verified against another part of its contract)
 """
 import hashlib
@@ -215,6 +217,7 @@ def build(template_path, repo, out_path, drop_tags=()):
             unguard = False
             emit_as = None
             opaque_async = False
+            foreach_it = None
             sink = None
             closurespec = {}
             cur = contract
@@ -242,6 +245,8 @@ def build(template_path, repo, out_path, drop_tags=()):
                         oname = d[5:].strip()
                     elif d.startswith("emit_as "):
                         emit_as = d[8:].strip()
+                    elif d.startswith("for_each_to_for it="):
+                        foreach_it = d.split("it=", 1)[1].strip()
                     elif d == "opaque_async_blocks":
                         opaque_async = True
                     elif d.startswith("sink_exit "):
@@ -520,9 +525,12 @@ def build(template_path, repo, out_path, drop_tags=()):
                 unit.drops["functions_emitted_under_second_name"] = unit.drops.get("functions_emitted_under_second_name", 0) + 1
             if ret:
                 if arrow is None:
-                    raise ExtractError(f"`{path[-1]}`: ret named but fn has no return type")
-                edits.append((ltoks[arrow + 1].s, ltoks[arrow + 1].s, f"({ret}: "))
-                edits.append((ltoks[ret_end - 1].e, ltoks[ret_end - 1].e, ")"))
+                    # a fn without `->` returns the unit: spell that out (`-> (r: ())`).  Needed for `async fn`s — Verus
+                    # applies an async callee's postcondition at `.await` only when the return value is named.
+                    edits.append((ltoks[p_close].e, ltoks[p_close].e, f" -> ({ret}: ())"))
+                else:
+                    edits.append((ltoks[arrow + 1].s, ltoks[arrow + 1].s, f"({ret}: "))
+                    edits.append((ltoks[ret_end - 1].e, ltoks[ret_end - 1].e, ")"))
                 unit.drops["return_values_named"] += 1
             ins = "\n" + ctext + "\n" if ctext.strip() else ""
             edits.append((ltoks[bol].s, ltoks[bol].s, ins))
@@ -530,6 +538,10 @@ def build(template_path, repo, out_path, drop_tags=()):
                 edits.append((ltoks[bol].e, ltoks[bol].e, "\n" + "\n".join(body_prefix) + "\n"))
             bcl = rslex.match_close(ltoks, bol)
             loops = rslex.loops_in(ltoks, bol + 1, bcl)
+            loopspec_all = dict(loopspec)
+            if foreach_it and 0 in loopspec:
+                # (rule 17 splices these itself)
+                loopspec = {k: v for k, v in loopspec.items() if k != 0}
             if loopspec and len(loops) == 0:
                 # the function no longer contains ANY loop: its loop invariants have nothing to attach to and are not
                 # needed; the function contract is still checked (a `while` turned into an `if` must fail on its
@@ -558,6 +570,52 @@ def build(template_path, repo, out_path, drop_tags=()):
                     edits.append((ltoks[k].e, ltoks[k].e, f" {ls['it']}:"))
                     unit.drops["for_iterators_named"] += 1
                 edits.append((ltoks[lbo].s, ltoks[lbo].s, "\n" + "\n".join(ls["lines"]) + "\n"))
+            if foreach_it:
+                # rule 17: `E.into_iter().for_each(|P| B);` -> `for P in it: E B`; the contract's `loop 0` invariants belong
+                # to the loop this rule creates
+                foreach_inv = loopspec_all[0]["lines"] if 0 in loopspec_all else []
+                T = [t.t for t in ltoks]
+                hits = []
+                for k in range(bol + 1, bcl - 8):
+                    if T[k] == "." and T[k + 1] == "into_iter" and T[k + 2] == "(" and T[k + 3] == ")" and T[k + 4] == "." \
+                            and T[k + 5] == "for_each" and T[k + 6] == "(" and T[k + 7] == "|":
+                        hits.append(k)
+                if len(hits) != 1:
+                    raise ExtractError(f"rule 17: `{path[-1]}` has {len(hits)} statements of the shape `E.into_iter().for_each(|P| B);`")
+                k = hits[0]
+                # receiver expression E: back to the previous `;`, `{` or `}`
+                j = k - 1
+                d = 0
+                while j > bol:
+                    tj = T[j]
+                    if tj in (")", "]"):
+                        d += 1
+                    elif tj in ("(", "["):
+                        d -= 1
+                    elif d == 0 and tj in (";", "{", "}"):
+                        break
+                    j -= 1
+                e0 = j + 1
+                # closure parameter pattern: between the two `|` at depth 0
+                p0 = k + 8
+                q = p0
+                d = 0
+                while not (d == 0 and T[q] == "|"):
+                    if T[q] in ("(", "["):
+                        d += 1
+                    elif T[q] in (")", "]"):
+                        d -= 1
+                    q += 1
+                if T[q + 1] != "{":
+                    raise ExtractError("rule 17: closure body is not a block")
+                bclose = rslex.match_close(ltoks, q + 1)
+                if not (T[bclose + 1] == ")" and T[bclose + 2] == ";"):
+                    raise ExtractError("rule 17: `for_each(..)` is not a statement")
+                recv = text[ltoks[e0].s:ltoks[k - 1].e]
+                pat = text[ltoks[p0].s:ltoks[q - 1].e]
+                edits.append((ltoks[e0].s, ltoks[q].e, f"for {pat} in {foreach_it}: {recv} \n" + "\n".join(foreach_inv) + "\n"))
+                edits.append((ltoks[bclose + 1].s, ltoks[bclose + 2].e, ""))
+                unit.drops["for_each_rewritten_as_for"] = unit.drops.get("for_each_rewritten_as_for", 0) + 1
             if opaque_async:
                 # rule 16: see the module docstring
                 n16 = 0
